@@ -555,7 +555,9 @@ func (w *qWorld) onMessage(co *consumer, f Frame) {
 	sameLife := prev != nil && prev.lifetime == w.lifetime
 	if prev != nil && !prev.Voided && sameLife && !prev.maybeAnswered && !cm.Unordered && !touchGhost && (strict || prev.Att < wm.Attempts) {
 		switch {
-		case prev.Answer == "req" && (!prev.AnsKnown || prev.AnsOK):
+		case prev.Answer == "req" && !prev.AnsKnown:
+			// sent in this very step, outcome not known yet: nothing can be concluded
+		case prev.Answer == "req" && prev.AnsOK:
 			delay := prev.ReqDelay
 			if max := ms(w.cfg.MaxReqTimeoutMs); delay > max {
 				delay = max
@@ -1146,6 +1148,7 @@ func (w *qWorld) drain() {
 			if d := lastDel(mc); d != nil {
 				st = fmt.Sprintf("last delivered to %s at %v (attempt %d, answer %q ok=%v)", d.cons.cl.Name, d.At.Sub(rc.start), d.Att, d.Answer, d.AnsOK)
 			}
+			w.violate("C04", "not-redelivered-in-time", "%d message(s) whose timeout/delay has long passed were not delivered %v after faults stopped; first: m%06d on %s: %s", len(owed), spent, mc.pub.N, mc.ck, st)
 			w.violate("C01", "message-lost", "%d acknowledged message(s) not finished %v after faults stopped; first: m%06d (%s via %s, defer %dms) on %s: %s",
 				len(owed), spent, mc.pub.N, mc.pub.ID, mc.pub.Via, mc.pub.DeferMs, mc.ck, st)
 			for i, o := range owed {
@@ -1347,5 +1350,73 @@ func (w *qWorld) checkRegistry(prop string) {
 		if sc != nil && c.Exists && sc.Paused != c.Paused {
 			w.violate(prop, "channel-paused-flag", "channel %s paused=%v after restart, was %v", k, sc.Paused, c.Paused)
 		}
+	}
+}
+
+// lateSlack: how long after a deadline the periodic scan may need to get to a channel.
+func (w *qWorld) lateSlack() time.Duration {
+	nch := 0
+	for _, c := range w.chans {
+		if c.Exists || c.Uncertain {
+			nch++
+		}
+	}
+	ticks := 3
+	if nch > w.cfg.ScanSelCount && w.cfg.ScanSelCount > 0 {
+		ticks = 28 * (nch + w.cfg.ScanSelCount - 1) / w.cfg.ScanSelCount
+	}
+	return time.Duration(ticks)*ms(w.cfg.ScanIntervalMs) + 2*ms(w.cfg.ScanRefreshMs) + time.Second
+}
+
+// checkLate (C04, "boundedly late"): an unanswered message cannot stay with
+// its holder beyond max-msg-timeout after delivery (however often it is
+// touched); once that has passed, plus scan slack, it must have been handed
+// out again if its holder is able to receive.
+func (w *qWorld) checkLate() {
+	now := time.Now()
+	slack := w.lateSlack()
+	for _, co := range w.cons {
+		if co.Dead || !co.Subscribed || co.Closing || co.Rdy < 1 || !co.Unbuffered {
+			continue
+		}
+		cm := w.chans[co.ck]
+		if cm == nil || !cm.Exists || cm.Paused || cm.Unordered || cm.Uncertain || now.Sub(w.lastRestartAt) < ms(w.cfg.MaxMsgTimeoutMs)+slack {
+			continue
+		}
+		if time.Duration(w.epoch-cm.PausedStep) < 0 {
+			continue
+		}
+		var mine []*delivery
+		for _, d := range co.Dels {
+			if d.Answer == "" && !d.Voided && !d.maybeAnswered && lastDel(d.mc) == d {
+				mine = append(mine, d)
+			}
+		}
+		if int64(len(mine)) > co.Rdy {
+			continue
+		}
+		for _, d := range mine {
+			limit := d.At.Add(ms(w.cfg.MaxMsgTimeoutMs)).Add(slack)
+			if cm.unpausedAt.After(d.At) {
+				limit = cm.unpausedAt.Add(ms(w.cfg.MaxMsgTimeoutMs)).Add(slack)
+			}
+			// if the channel handed out anything else after this message's cap, the
+			// holder's slots may simply have been taken by other queued messages
+			busy := false
+			capAt := d.At.Add(co.MsgTimeout) // the earliest it can have timed out and rejoined the queue
+			for _, mc := range cm.msgs {
+				for _, x := range mc.dels {
+					if x != d && !x.At.Before(capAt) {
+						busy = true
+					}
+				}
+			}
+			if now.After(limit) && !busy {
+				w.violate("C04", "timeout-late", "m%06d delivered to %s at %v (attempt %d, %d touches) is still with it at %v: max-msg-timeout %v + scan slack %v have passed and it was not redelivered",
+					d.mc.pub.N, co.cl.Name, d.At.Sub(w.rc.start), d.Att, len(d.Touches), now.Sub(w.rc.start), ms(w.cfg.MaxMsgTimeoutMs), slack)
+				return
+			}
+		}
+		w.rc.Probe("late_checked")
 	}
 }
